@@ -1,6 +1,6 @@
 (* C04 — every reported state is a physical density matrix. *)
-From Coq Require Import Arith List Bool.
-From OQ Require Import Lib.RingSum Model.SuperOps Model.Shapes Proofs.SuperOpsSpec Proofs.ShapesSpec.
+From Coq Require Import ZArith Arith List Bool Lia.
+From OQ Require Import Lib.RingSum Lib.Mat Model.SuperOps Model.Shapes Model.PathSum Proofs.SuperOpsSpec Proofs.ShapesSpec Proofs.PathSumTrace.
 Import ListNotations.
 
 (* Throughout: K any commutative ring with an involutive ring automorphism conj and an element iu
@@ -62,3 +62,46 @@ Theorem super_operators_act :
     sumn d (fun k => sumn d (fun l => rmul (rs_f A i j k l) (rho k l))) = mm d rho A i j.
 Proof. intros. split; [apply left_super_acts|apply right_super_acts]; assumption. Qed.
 Print Assumptions super_operators_act.
+
+(* (5) composition: the WHOLE path sum (the exact value of the TEMPO / PT-TEMPO network, Model/PathSum.v:
+   any number of time points n, any memory schedule [coef], any basis change, time-dependent half-step
+   propagators) has the trace of the initial state at every step, provided
+     - every half-step propagator and the two basis changes preserve the trace functional t
+       column-wise (what (1) gives for exp(L dt/2): tr.L = 0; exp itself is not modelled), and
+     - the influence functions are 1 where the LATER index is a population, stated ring-generally as
+       "multiplied by t(later index) they disappear" (what (3) gives: exp(0) = 1).
+   [traced n] is sum_s t(s) * (state after n points)(s). *)
+Theorem pathsum_trace :
+  forall (K : Ring) (d2 : nat) (diag0 : nat -> K) (coef : nat -> nat -> option (list (list K)))
+         (uin uout : list (list K)) (props : nat -> list (list K) * list (list K)) (rho0 : list K) (t : nat -> K),
+    square K d2 uin -> square K d2 uout ->
+    (forall k, square K d2 (fst (props k)) /\ square K d2 (snd (props k))) -> length rho0 = d2 ->
+    col_tp K d2 t uin -> col_tp K d2 t uout ->
+    (forall k, col_tp K d2 t (fst (props k)) /\ col_tp K d2 t (snd (props k))) ->
+    (forall j, j < d2 -> rmul (t j) (diag0 j) = t j) ->
+    (forall kp k m jp j, coef kp k = Some m -> j < d2 -> rmul (t j) (entry K m jp j) = t j) ->
+    forall n, traced K d2 diag0 coef uin uout props rho0 t (S n) = trace K d2 t rho0.
+Proof. intros K d2 diag0 coef uin uout props rho0 t H1 H2 H3 H4 H5 H6 H7 H8 H9. exact (PathSumTrace.pathsum_trace K d2 diag0 coef uin uout props rho0 t H1 H2 H3 H4 H5 H6 H7 H8 H9). Qed.
+Print Assumptions pathsum_trace.
+
+(* the hypotheses are satisfiable by a non-trivial network (d = 2: indices 0,3 are the populations; a
+   propagator that mixes populations and coherences, influences different from 1 on the coherences),
+   and on it the conclusion is not an artefact of everything being the identity *)
+Open Scope Z_scope.
+Definition ex_t (j : nat) : Z := match j with 0%nat | 3%nat => 1 | _ => 0 end.
+Definition ex_id : list (list Z) := [[1;0;0;0];[0;1;0;0];[0;0;1;0];[0;0;0;1]].
+Definition ex_p : list (list Z) := [[2;1;0;-1];[3;5;1;2];[0;7;2;4];[-1;-1;0;2]].
+Definition ex_diag (j : nat) : Z := match j with 1%nat => 3 | 2%nat => 5 | _ => 1 end.
+Definition ex_m : list (list Z) := [[1;2;3;1];[1;-1;4;1];[1;6;2;1];[1;0;7;1]].
+Definition ex_coef (kp k : nat) : option (list (list Z)) := if Nat.leb (k - kp) 2 then Some ex_m else None.
+Example pathsum_trace_nonvacuous :
+  square ZRing 4 ex_p /\ col_tp ZRing 4 ex_t ex_p /\
+  (forall j, (j < 4)%nat -> ex_t j * ex_diag j = ex_t j) /\
+  map (fun n => traced ZRing 4 ex_diag ex_coef ex_id ex_id (fun _ => (ex_p, ex_p)) [1;2;0;3] ex_t n) [1;2;3;4]%nat = [4;4;4;4] /\
+  map (@state_entry ZRing 4 ex_diag ex_coef ex_id ex_id (fun _ => (ex_p, ex_p)) [1;2;0;3] 2) [0;1;2;3]%nat <> [1;2;0;3].
+Proof.
+  split; [split; [reflexivity|intros r Hr; repeat (destruct Hr as [<-|Hr]; [reflexivity|]); destruct Hr]|].
+  split; [intros i Hi; do 4 (destruct i as [|i]; [reflexivity|]); lia|].
+  split; [intros j Hj; do 4 (destruct j as [|j]; [reflexivity|]); lia|].
+  split; [vm_compute; reflexivity|vm_compute; discriminate].
+Qed.
